@@ -100,15 +100,15 @@ def build(ctx):
     t += 'impl Route {\n'
     t += C.fn(ROUTE, 'impl Route :: fn new', 'Route::new', ['C16'], ret='r', sig_rewrites=[(re.compile(r'where\b.*$', re.S), 'where T: SvcId\n')], spec='''
     ensures
-        r.0.id@ == svc.svc_id(), // @OBL Route::new::wraps_the_service [C16] a route is exactly the service it was made from
+        r.0.id@ == $1.svc_id(), // @OBL Route::new::wraps_the_service [C16] a route is exactly the service it was made from
 ''')
     t += C.fn(ROUTE, 'impl Route :: fn oneshot_inner', 'Route::oneshot_inner', ['C16'], ret='r', spec='''
     ensures
-        r.svc.id@ == self.0.id@ && r.req == req, // @OBL Route::oneshot_inner::calls_its_own_service_once [C16] a route hands the request, unchanged, to (a clone of) its own service, once
+        r.svc.id@ == self.0.id@ && r.req == $1, // @OBL Route::oneshot_inner::calls_its_own_service_once [C16] a route hands the request, unchanged, to (a clone of) its own service, once
 ''')
     t += C.fn(ROUTE, 'impl Service<Request<Bytes>> for Route :: fn call', 'Route::call', ['C16'], ret='r', sig_rewrites=[('Self::Future', 'Oneshot<BoxCloneService<Request<Bytes>, Response<Bytes>, Infallible>, Request<Bytes>>')], spec='''
     ensures
-        r.svc.id@ == old(self).0.id@ && r.req == req, // @OBL Route::call::calls_its_own_service_once [C16] calling a route is calling its service with that request
+        r.svc.id@ == old(self).0.id@ && r.req == $1, // @OBL Route::call::calls_its_own_service_once [C16] calling a route is calling its service with that request
 ''')
     t += '}\nimpl not_found::NotFound {\n'
     t += C.fn(NF, 'impl <B> Service<Request<B>> for NotFound .* :: fn call', 'NotFound::call', ['C16'], ret='r',
@@ -120,8 +120,8 @@ def build(ctx):
     t += '}\nimpl RouteMatcher {\n'
     t += C.fn(RT, 'impl RouteMatcher :: fn at', 'RouteMatcher::at', ['C16'], ret='r', spec='''
     ensures
-        matchit::select(self.inner.pats@, path@) is Some ==> r is Ok && *r->Ok_0.value == self.inner.pats@[matchit::select(self.inner.pats@, path@)->Some_0], // @OBL RouteMatcher::at::is_the_tries_answer [C16] the matcher answers with the id registered for the pattern the trie selects for this path
-        matchit::select(self.inner.pats@, path@) is None ==> r is Err, // @OBL RouteMatcher::at::no_pattern_no_id [C16] and with an error when the trie selects none
+        matchit::select(self.inner.pats@, $1@) is Some ==> r is Ok && *r->Ok_0.value == self.inner.pats@[matchit::select(self.inner.pats@, $1@)->Some_0], // @OBL RouteMatcher::at::is_the_tries_answer [C16] the matcher answers with the id registered for the pattern the trie selects for this path
+        matchit::select(self.inner.pats@, $1@) is None ==> r is Err, // @OBL RouteMatcher::at::no_pattern_no_id [C16] and with an error when the trie selects none
 ''')
     t += '}\nimpl Router {\n'
     t += C.fn(RT, 'impl Router :: fn new', 'Router::new', ['C16'], ret='r', spec='''
@@ -135,10 +135,10 @@ def build(ctx):
     requires
         router_wf(*old(self)),
     ensures
-        matchit::select(old(self).matcher.inner.pats@, req.route@) is Some ==>
-            r.svc.id@ == old(self).routes.m@[old(self).matcher.inner.pats@[matchit::select(old(self).matcher.inner.pats@, req.route@)->Some_0]].0.id@, // @OBL Router::call::dispatches_to_the_matched_routes_service [C16] a request whose route the trie matches to a registered pattern goes to exactly the service stored for that pattern's id
-        matchit::select(old(self).matcher.inner.pats@, req.route@) is None ==> r.svc.id@ == old(self).fallback.0.id@, // @OBL Router::call::unmatched_goes_to_the_fallback [C16] any route the trie matches to nothing (including empty or odd strings) goes to the fallback (NotFound), never to a registered service
-        r.req == req, // @OBL Router::call::request_unchanged_once [C16] the request is handed over unchanged, to exactly one service
+        matchit::select(old(self).matcher.inner.pats@, $1.route@) is Some ==>
+            r.svc.id@ == old(self).routes.m@[old(self).matcher.inner.pats@[matchit::select(old(self).matcher.inner.pats@, $1.route@)->Some_0]].0.id@, // @OBL Router::call::dispatches_to_the_matched_routes_service [C16] a request whose route the trie matches to a registered pattern goes to exactly the service stored for that pattern's id
+        matchit::select(old(self).matcher.inner.pats@, $1.route@) is None ==> r.svc.id@ == old(self).fallback.0.id@, // @OBL Router::call::unmatched_goes_to_the_fallback [C16] any route the trie matches to nothing (including empty or odd strings) goes to the fallback (NotFound), never to a registered service
+        r.req == $1, // @OBL Router::call::request_unchanged_once [C16] the request is handed over unchanged, to exactly one service
         *final(self) == *old(self), // @OBL Router::call::router_unchanged [C16] routing a request never changes the router
 ''', prose='Router::call never panics for any route string as long as every id the matcher holds has a route (the `expect` is unreachable)')
     t += '}\n'
